@@ -14,7 +14,7 @@ From Ragc Require Import Mach Consts_kmer Consts_segment Consts_pipeline Consts_
 From Ragc Require Import Varint Kmer Segment Pipeline SegReader GroupStore Tuple SegCompress LZ Details Collection Container
   Range AgcV3 ModelCreate.
 From Ragc Require Import Segment_proofs Pipeline_proofs GroupStore_proofs Compose_codecs Compose_proofs.
-From Ragc Require GroupStore_rules Collection_proofs Container_proofs Range_proofs AgcV3_proofs.
+From Ragc Require GroupStore_inv GroupStore_rules Collection_proofs Container_proofs Range_proofs AgcV3_proofs.
 From Ragc Require Import AgcV3_compose Grand_proofs.
 Open Scope N_scope.
 Arguments N.add : simpl never.
@@ -245,8 +245,8 @@ Section Catalogue.
     { eapply Permutation_trans; [apply Permutation_sym; apply sel_perm; apply Hsched|]. rewrite Esel.
       do 2 apply Permutation_map. exact Pp. }
     unfold vec_of. rewrite (place_perm_dense _ _ PL).
-    - rewrite map_map. unfold pd. cbn [snd]. rewrite <- (map_map (reg_of addr j s c) r_desc).
-      rewrite <- (map_map (reg_of addr j s c) r_desc ps). do 2 apply Permutation_map. apply Permutation_sym. exact Pp.
+    - assert (E : forall l, map snd (map pd l) = map r_desc l) by (intro l; rewrite map_map; reflexivity).
+      rewrite E. do 2 apply Permutation_map. apply Permutation_sym. exact Pp.
     - rewrite !map_map, !map_length. rewrite <- Np. apply map_ext. intro pc. unfold pd. cbn [fst].
       apply (reg_of_fields addr j s c pc).
   Qed.
@@ -263,26 +263,29 @@ Section Catalogue.
     intros V s c d Hs Hcin Hd.
     exists (fst s, map (fun c0 => (c0, V (fst s) c0)) (map fst (snd s))), (fst c, V (fst s) (fst c)).
     split; [|split; [|exact Hd]].
-    - unfold build, shape_of. rewrite map_map. cbn [fst snd]. apply in_map_iff. exists s. auto.
-    - cbn [snd]. rewrite map_map. apply in_map_iff. exists c. auto.
+    - unfold build, shape_of. apply in_map_iff. exists (fst s, map fst (snd s)). split; [reflexivity|].
+      apply in_map_iff. exists s. auto.
+    - cbn [snd]. apply in_map_iff. exists (fst c). split; [reflexivity|]. apply in_map. exact Hcin.
   Qed.
 
   (* every descriptor handed to the store occurs in the catalogue *)
   Lemma stored_in_coll : forall d b, In (d, b) stored -> desc_in coll d.
   Proof.
     intros d b Hdb. destruct (create_inv coll stored Hc) as (regs & Hnames & Ea & -> & ->).
-    apply in_map_iff in Hdb. destruct Hdb as (r & Er & Hr). apply ok_inj in (f_equal Ok Er) as Er'. clear Er'.
+    apply in_map_iff in Hdb. destruct Hdb as (r & Er & Hr).
     assert (Ed : r_desc r = d) by (inversion Er; reflexivity). clear Er.
     destruct (all_regs_names k spl segsize dec addr _ _ _ Ea r Hr) as ([[s c] data] & Hp & Ek).
-    unfold key_of in Ek. cbn [fst snd] in Ek. inversion Ek as [[Es Ec]].
+    unfold key_of in Ek. cbn [fst snd] in Ek.
+    destruct (pushes_keys samples _ Hp) as (s0 & c0 & Hs0 & Hc0 & Ep).
+    assert (Fs : r_sample r = fst s0) by congruence. assert (Fc : r_contig r = fst c0) by congruence.
+    rewrite Ep in Hp. clear Ek Ep s c data.
     pose proof (pushes_nonempty _ Hin _ Hp) as Hne. cbn [fst] in Hne.
-    destruct (pushes_keys samples _ Hp) as (s0 & c0 & Hs0 & Hc0 & Ep). inversion Ep; subst s c data.
     apply In_nth_error in Hp. destruct Hp as [j Hj].
     destruct (contig_vector regs Hnames Ea j _ _ _ Hj) as (rs & _ & _ & Esel & P).
     apply (build_entry _ s0 c0 d Hs0 Hc0). apply (Permutation_in _ (Permutation_sym P)).
     assert (Hsel : In (r_place r, r_desc r) (sel ecn (fst s0) (fst c0) regs)).
     { unfold sel. apply in_map_iff. exists r. split; [reflexivity|]. apply filter_In. split; [exact Hr|].
-      rewrite <- Es, <- Ec. rewrite stored_name_nonempty by (rewrite <- Es in Hne; exact Hne).
+      rewrite Fs, Fc. rewrite stored_name_nonempty by exact Hne.
       rewrite !name_eqb_refl. reflexivity. }
     rewrite Esel in Hsel. apply in_map_iff in Hsel. destruct Hsel as (r' & Er' & Hr').
     apply in_map_iff. exists r'. split; [|exact Hr']. inversion Er'. rewrite <- Ed. assumption.
@@ -292,8 +295,10 @@ Section Catalogue.
   Lemma coll_from_stored : forall d, desc_in coll d -> exists b, In (d, b) stored.
   Proof.
     intros d (sd & cd & Hsd & Hcd & Hd). destruct (create_inv coll stored Hc) as (regs & Hnames & Ea & -> & ->).
-    unfold build, shape_of in Hsd. rewrite map_map in Hsd. apply in_map_iff in Hsd. destruct Hsd as (s0 & <- & Hs0).
-    cbn [fst snd] in Hcd. rewrite map_map in Hcd. apply in_map_iff in Hcd. destruct Hcd as (c0 & <- & Hc0). cbn [snd] in Hd.
+    unfold build, shape_of in Hsd. apply in_map_iff in Hsd. destruct Hsd as (sh0 & <- & Hsh0).
+    apply in_map_iff in Hsh0. destruct Hsh0 as (s0 & <- & Hs0).
+    cbn [fst snd] in Hcd. apply in_map_iff in Hcd. destruct Hcd as (cn0 & <- & Hcn0).
+    apply in_map_iff in Hcn0. destruct Hcn0 as (c0 & <- & Hc0). cbn [snd] in Hd.
     assert (Hp : In (fst s0, fst c0, snd c0) (pushes_of samples)).
     { unfold pushes_of. apply in_flat_map. exists s0. split; [exact Hs0|]. apply in_map_iff. exists c0. auto. }
     apply In_nth_error in Hp. destruct Hp as [j Hj].
@@ -367,3 +372,419 @@ Proof.
   pose proof (catalogue_group_bound zc segsize k coll Hcat _ Hd) as Hb.
   unfold reg_of, addr, store_addr in Hb. exact Hb.
 Qed.
+
+(* ================================================================ 4. the grand round trip without "= Ok" hypotheses *)
+(* the oracle clamped to u32: it agrees with [grp] wherever [grp] is below 2^32 (used only inside the proof) *)
+Definition clamp_grp (grp : nat -> nat -> N) : nat -> nat -> N :=
+  fun i part => if grp i part <? two32 then grp i part else 0.
+
+Lemma all_emit_ext k spl segsize dec grp grp' : forall pushes i0,
+  (forall i s c pc, piece_at k spl segsize dec i0 pushes i s c pc -> grp' i (p_part pc) = grp i (p_part pc)) ->
+  all_emit k spl segsize dec grp' i0 pushes = all_emit k spl segsize dec grp i0 pushes.
+Proof.
+  induction pushes as [|[[s c] data] rest IH]; intros i0 H; [reflexivity|]. cbn [all_emit]. f_equal.
+  - unfold contig_emit. destruct (pieces_of k spl segsize dec i0 data) as [ps| |] eqn:Ep; try reflexivity.
+    apply map_ext_in. intros pc Hpc. rewrite (H i0 s c pc); [reflexivity|].
+    exact (piece_at_here k spl segsize dec i0 _ rest s c data ps pc eq_refl Ep Hpc).
+  - apply IH. intros i s' c' pc Hp. apply (H i s' c' pc). exact (piece_at_later k spl segsize dec (fun _ _ => 0) i0 _ rest i s' c' pc Hp).
+Qed.
+
+Lemma all_regs_ext k spl segsize dec addr addr' : forall pushes i0,
+  (forall i s c pc, piece_at k spl segsize dec i0 pushes i s c pc -> addr' i (p_part pc) = addr i (p_part pc)) ->
+  all_regs k spl segsize dec addr' i0 pushes = all_regs k spl segsize dec addr i0 pushes.
+Proof.
+  induction pushes as [|[[s c] data] rest IH]; intros i0 H; [reflexivity|]. cbn [all_regs].
+  rewrite (IH (S i0)).
+  2:{ intros i s' c' pc Hp. apply (H i s' c' pc). exact (piece_at_later k spl segsize dec (fun _ _ => 0) i0 _ rest i s' c' pc Hp). }
+  rewrite !contig_regs_eq.
+  change (contig_pieces (N.to_nat k) (split_gen true data spl k) (dec i0) 0 0) with (pieces_of k spl segsize dec i0 data).
+  destruct (pieces_of k spl segsize dec i0 data) as [ps| |] eqn:Ep; try reflexivity. cbn [obnd].
+  replace (map (reg_of addr' i0 s c) ps) with (map (reg_of addr i0 s c) ps); [reflexivity|].
+  apply map_ext_in. intros pc Hpc. unfold reg_of.
+  rewrite (H i0 s c pc (piece_at_here k spl segsize dec i0 _ rest s c data ps pc eq_refl Ep Hpc)). reflexivity.
+Qed.
+
+Lemma create_ext ecn k spl segsize dec addr addr' sched pushes :
+  (forall i s c pc, piece_at k spl segsize dec 0 pushes i s c pc -> addr' i (p_part pc) = addr i (p_part pc)) ->
+  create ecn k spl segsize dec addr' sched pushes = create ecn k spl segsize dec addr sched pushes.
+Proof. intro H. unfold create. rewrite (all_regs_ext k spl segsize dec addr addr' pushes 0%nat H). reflexivity. Qed.
+
+Lemma model_build_ext : forall zc ecn k mml segsize level spl dec grp grp' sched gops fti samples,
+  (forall i s c pc, piece_at k spl segsize dec 0 (pushes_of samples) i s c pc -> grp' i (p_part pc) = grp i (p_part pc)) ->
+  model_build zc ecn k mml segsize level spl dec grp' sched gops fti samples =
+  model_build zc ecn k mml segsize level spl dec grp sched gops fti samples.
+Proof.
+  intros zc ecn k mml segsize level spl dec grp grp' sched gops fti samples H. unfold model_build.
+  destruct (run (mc_lz_enc mml) (mc_cref zc) (mc_cpack zc level) gops) as [st| |]; cbn [obnd]; try reflexivity.
+  rewrite (create_ext ecn k spl segsize dec (mc_store_addr k spl segsize dec grp (pushes_of samples) st)
+             (mc_store_addr k spl segsize dec grp' (pushes_of samples) st) sched (pushes_of samples)); [reflexivity|].
+  intros i s c pc Hp. unfold mc_store_addr. rewrite (H i s c pc Hp). reflexivity.
+Qed.
+
+Section GrandTotal.
+  Variable zc : N -> list N -> list N.
+  Variable zd : list N -> option (list N).
+  Hypothesis Hzd : forall l x, zd (zc l x) = Some x.
+  Hypothesis Hzc : forall l x, zc l x <> [].
+  Variable ecn : Pipeline.name -> Pipeline.name.
+  Variables (k mml segsize level : N).
+  Variable spl : N -> bool.
+  Variable dec : nat -> nat -> decision.
+  Variable grp : nat -> nat -> N.
+  Variable sched : list registration -> list registration.
+  Variable gops : list op.
+  Variable fti : Container.item.
+  Variable samples : list (Pipeline.name * list (Pipeline.name * list N)).
+  Hypothesis Hk : 1 <= k <= 32.
+  Hypothesis Hmml : 4 <= mml.
+  Hypothesis Hm32 : mml < two32.
+  Hypothesis Hs32 : segsize < two32.
+  Hypothesis Hssk : segsize + k <= 2147483648.
+  Hypothesis Hin : inputs_ok samples.
+  Hypothesis Hnames : contig_names_ok samples.
+  Hypothesis Hdom : inputs_in_dom mml (pushes_of samples).
+  Hypothesis Hdec : decisions_ok k spl segsize dec (pushes_of samples).
+  Hypothesis Hlz : lz_contigs_nonempty (pushes_of samples) grp.
+  Hypothesis Hsched : forall l, Permutation l (sched l).
+  Hypothesis Hcarry : ops_carry (all_emit k spl segsize dec grp 0 (pushes_of samples)) gops.
+  (* no group receives 2^32 - 2 pieces *)
+  Hypothesis Hcount : forall g,
+    lenN (filter (fun x => fst x =? g) (all_emit k spl segsize dec grp 0 (pushes_of samples))) + 2 < two32.
+  (* residual size conditions, on whatever the writer produces *)
+  Hypothesis Hcat : forall st coll stored,
+    run (mc_lz_enc mml) (mc_cref zc) (mc_cpack zc level) gops = Ok st ->
+    create ecn k spl segsize dec (mc_store_addr k spl segsize dec grp (pushes_of samples) st) sched (pushes_of samples)
+      = Ok (coll, stored) ->
+    catalogue_in_dom zc segsize k (mc_cat_of coll).
+  Hypothesis Hres : forall b,
+    model_build zc ecn k mml segsize level spl dec grp sched gops fti samples = Ok b ->
+    parts_meta_u64 (b_wops b) /\ lenN (b_file b) <= spec_max_off.
+
+  (* the writer cannot fail *)
+  Lemma model_build_succeeds : exists b,
+    model_build zc ecn k mml segsize level spl dec grp sched gops fti samples = Ok b /\
+    catalogue_in_dom zc segsize k (mc_cat_of (b_coll b)) /\
+    create ecn k spl segsize dec (mc_store_addr k spl segsize dec grp (pushes_of samples) (b_store b)) sched (pushes_of samples)
+      = Ok (b_coll b, b_stored b).
+  Proof using Hzd Hzc Hk Hssk Hin Hnames Hdec Hcarry Hcount Hcat.
+    destruct (store_run_total_proof (mc_lz_enc mml) (mc_cref zc) (mc_cpack zc level) _ gops Hcarry Hcount) as (st & Hrun).
+    destruct (create_total_proof ecn k spl segsize dec (mc_store_addr k spl segsize dec grp (pushes_of samples) st) sched samples
+                (proj1 Hk) Hin Hnames Hdec) as (coll & stored & Hc).
+    pose proof (Hcat st coll stored Hrun Hc) as Hcd.
+    destruct (model_build_total_proof zc zd Hzd Hzc ecn k mml segsize level spl dec grp sched gops fti samples st coll stored
+                Hssk Hrun Hc Hcd) as (b & Hb & Est & Ecoll & Estored).
+    exists b. split; [exact Hb|]. rewrite Est, Ecoll, Estored. split; [exact Hcd|exact Hc].
+  Qed.
+
+  Theorem grand_roundtrip_total_proof : exists b,
+    model_build zc ecn k mml segsize level spl dec grp sched gops fti samples = Ok b /\
+    decode zd (b_file b) = Ok samples.
+  Proof.
+    destruct model_build_succeeds as (b & Hb & Hcd & Hc). exists b. split; [exact Hb|].
+    destruct (Hres b Hb) as [Hmeta Hfile].
+    (* the groups of the emitted pieces are below 2^32: the clamped oracle builds the same file *)
+    pose proof (grp_bound_from_catalogue_proof zc ecn k spl segsize dec grp sched samples (b_store b) (b_coll b) (b_stored b)
+                  (proj1 Hk) Hin Hdec Hsched Hc Hcd) as Hgb.
+    assert (Hagree : forall i s c pc, piece_at k spl segsize dec 0 (pushes_of samples) i s c pc ->
+                                      clamp_grp grp i (p_part pc) = grp i (p_part pc)).
+    { intros i s c pc Hp. unfold clamp_grp.
+      assert (Hx : In (grp i (p_part pc), seg_of_piece s c pc) (all_emit k spl segsize dec grp 0 (pushes_of samples))).
+      { apply all_emit_in. exists i, s, c, pc. auto. }
+      specialize (Hgb _ Hx). cbn [fst] in Hgb. apply N.ltb_lt in Hgb. rewrite Hgb. reflexivity. }
+    apply (grand_roundtrip_proof zc zd Hzd Hzc ecn k mml segsize level spl dec (clamp_grp grp) sched gops fti samples
+             Hk Hmml Hm32 Hs32 Hssk Hin Hdom Hdec).
+    - intros i s c data part Hn H16. apply (Hlz i s c data part Hn). unfold clamp_grp in H16.
+      destruct (grp i part <? two32); [exact H16|lia].
+    - intros i part. unfold clamp_grp. destruct (N.ltb_spec (grp i part) two32) as [H|H]; [exact H|reflexivity].
+    - exact Hsched.
+    - rewrite (all_emit_ext k spl segsize dec grp (clamp_grp grp) (pushes_of samples) 0%nat Hagree). exact Hcarry.
+    - rewrite (model_build_ext zc ecn k mml segsize level spl dec grp (clamp_grp grp) sched gops fti samples Hagree). exact Hb.
+    - exact Hcd.
+    - exact Hmeta.
+    - exact Hfile.
+  Qed.
+End GrandTotal.
+
+(* ---- the same from FASTA text: what the reader accepts never repeats a contig name within a sample *)
+Lemma add_contig_names_ok : forall arch s n c a, Fasta.add_contig arch (s, n, c) = Some a ->
+  contig_names_ok arch -> contig_names_ok a.
+Proof.
+  induction arch as [|[s0 cs0] arch IH]; intros s n c a H Hok.
+  - cbn in H. inversion H; subst. constructor; [|constructor]. cbn. constructor; [intros []|constructor].
+  - cbn [Fasta.add_contig] in H. inversion Hok as [|? ? Hok1 Hok2]; subst. destruct (Fasta.bytes_eqb s0 s).
+    + destruct (existsb (fun x => Fasta.bytes_eqb (fst x) n) cs0) eqn:E; [discriminate|]. inversion H; subst a; clear H.
+      constructor; [|exact Hok2]. cbn [snd] in *. rewrite map_app. cbn [map fst]. apply Pipeline_proofs.NoDup_snoc; [exact Hok1|].
+      intro Hin. apply in_map_iff in Hin. destruct Hin as (x & Ex & Hx).
+      assert (T : existsb (fun x => Fasta.bytes_eqb (fst x) n) cs0 = true).
+      { apply existsb_exists. exists x. split; [exact Hx|]. cbn beta. rewrite <- Ex. apply Fasta_proofs.bytes_eqb_refl. }
+      rewrite T in E. discriminate.
+    + destruct (Fasta.add_contig arch (s, n, c)) as [a'|] eqn:A; [|discriminate]. inversion H; subst a; clear H.
+      constructor; [exact Hok1|]. exact (IH s n c a' A Hok2).
+Qed.
+
+Lemma collect_names_ok : forall cs arch a, Fasta.collect arch cs = Ok a -> contig_names_ok arch -> contig_names_ok a.
+Proof.
+  induction cs as [|[[s n] c] cs IH]; intros arch a H Hok; cbn [Fasta.collect] in H.
+  - inversion H; subst. exact Hok.
+  - destruct (Fasta.add_contig arch (s, n, c)) as [a1|] eqn:A; [|discriminate].
+    exact (IH a1 a H (add_contig_names_ok arch s n c a1 A Hok)).
+Qed.
+
+Lemma text_samples_names_ok : forall files arch, text_samples files = Ok arch -> contig_names_ok arch.
+Proof.
+  intros files arch H. unfold text_samples in H. destruct (text_stream files) as [cs| |]; cbn [obnd] in H; try discriminate.
+  apply (collect_names_ok cs [] arch H). constructor.
+Qed.
+
+Section GrandTextTotal.
+  Variable zc : N -> list N -> list N.
+  Variable zd : list N -> option (list N).
+  Hypothesis Hzd : forall l x, zd (zc l x) = Some x.
+  Hypothesis Hzc : forall l x, zc l x <> [].
+  Variable ecn : Pipeline.name -> Pipeline.name.
+  Variables (k mml segsize level : N).
+  Variable spl : N -> bool.
+  Variable dec : nat -> nat -> decision.
+  Variable grp : nat -> nat -> N.
+  Variable sched : list registration -> list registration.
+  Variable gops : list op.
+  Variable fti : Container.item.
+  Variable files : list (list N * list N).
+  Variable arch : list (list N * list (list N * list N)).
+  Hypothesis Hk : 1 <= k <= 32.
+  Hypothesis Hmml : 4 <= mml.
+  Hypothesis Hm32 : mml < two32.
+  Hypothesis Hs32 : segsize < two32.
+  Hypothesis Hssk : segsize + k <= 2147483648.
+  Hypothesis Htext : text_samples files = Ok arch.
+  Hypothesis Hnonempty : Forall (fun s => fst s <> []) arch.
+  Hypothesis Hlens : forall s c data, In (s, c, data) (pushes_of arch) -> 2 * lenN data + mml < 2147483648.
+  Hypothesis Hdec : decisions_ok k spl segsize dec (pushes_of arch).
+  Hypothesis Hsched : forall l, Permutation l (sched l).
+  Hypothesis Hcarry : ops_carry (all_emit k spl segsize dec grp 0 (pushes_of arch)) gops.
+  Hypothesis Hcount : forall g,
+    lenN (filter (fun x => fst x =? g) (all_emit k spl segsize dec grp 0 (pushes_of arch))) + 2 < two32.
+  Hypothesis Hcat : forall st coll stored,
+    run (mc_lz_enc mml) (mc_cref zc) (mc_cpack zc level) gops = Ok st ->
+    create ecn k spl segsize dec (mc_store_addr k spl segsize dec grp (pushes_of arch) st) sched (pushes_of arch)
+      = Ok (coll, stored) ->
+    catalogue_in_dom zc segsize k (mc_cat_of coll).
+  Hypothesis Hres : forall b,
+    model_build zc ecn k mml segsize level spl dec grp sched gops fti arch = Ok b ->
+    parts_meta_u64 (b_wops b) /\ lenN (b_file b) <= spec_max_off.
+
+  Theorem text_roundtrip_total_proof :
+    (exists b, model_build zc ecn k mml segsize level spl dec grp sched gops fti arch = Ok b /\
+               decode zd (b_file b) = Ok arch) /\
+    Fasta.create_view files =
+      Ok (map (fun sc => (fst sc, map (fun nc => (fst nc, Fasta.out_letters (snd nc))) (snd sc))) arch).
+  Proof.
+    destruct (text_samples_shape files arch Htext) as (ND & NE & Hcodes). split.
+    - apply (grand_roundtrip_total_proof zc zd Hzd Hzc ecn k mml segsize level spl dec grp sched gops fti arch); try assumption.
+      + split; [exact ND|]. apply Forall_forall. intros s Hs. rewrite Forall_forall in Hnonempty, NE.
+        split; [exact (Hnonempty s Hs)|exact (NE s Hs)].
+      + exact (text_samples_names_ok files arch Htext).
+      + intros s c data Hp. split; [exact (proj1 (Hcodes s c data Hp))|exact (Hlens s c data Hp)].
+      + intros i s c data part Hn _. exact (proj2 (Hcodes s c data (nth_error_In _ _ Hn))).
+    - rewrite create_view_text_samples, Htext. reflexivity.
+  Qed.
+End GrandTextTotal.
+
+(* ================================================================ 5. the catalogue domain, from inputs / oracles / the store
+   catalogue_in_dom splits into input-level conditions (counts, name bytes), the oracle's range, the per-group piece
+   count (in_group_id <= number of segments of the group) and ONE residual: batch_small, the sizes of the five
+   serialized detail streams of each batch and of their zstd images *)
+Lemma reg_id_bound : forall lz_enc compress_ref compress_pack ops st g s id,
+  run lz_enc compress_ref compress_pack ops = Ok st -> In (s, id) (regs_of st g) -> id <= lenN (GroupStore.segs_of ops g).
+Proof.
+  intros lz_enc compress_ref compress_pack ops st g s id Hrun Hin.
+  destruct (GroupStore_proofs.run_inv _ _ _ _ _ Hrun) as [HG HP].
+  pose proof (Permutation_length (HP g)) as El. rewrite map_length in El.
+  unfold regs_of, get_group in *. destruct (st g) as [gs|] eqn:Eg; [|destruct Hin].
+  destruct (HG g gs Eg) as (packs & ents & HI).
+  destruct HI as [_ _ _ _ _ _ _ Hregs _ Hcount _]. rewrite Forall_forall in Hregs. specialize (Hregs _ Hin).
+  unfold GroupStore_inv.reg_ok in Hregs. unfold lenN. rewrite <- El.
+  assert (Hnth : forall e, nth_error ents (N.to_nat (id - 1)) = Some e -> id <= N.of_nat (length (g_regs gs))).
+  { intros e He. assert (N.to_nat (id - 1) < length ents)%nat by (apply nth_error_Some; congruence). lia. }
+  destruct (GroupStore_proofs.is_lz g).
+  - destruct (b_reference (g_buf gs)); [|contradiction].
+    destruct Hregs as [[-> _]|(_ & H2 & _)]; [lia|exact (Hnth _ H2)].
+  - destruct Hregs as (_ & H2). exact (Hnth _ H2).
+Qed.
+
+Lemma chunks_sub {A} bs : forall f (l : list A) B, In B (Collection_proofs.chunks f bs l) ->
+  (length B <= bs)%nat /\ forall x, In x B -> In x l.
+Proof.
+  induction f as [|f IH]; intros l B HB; [destruct HB|]. cbn [Collection_proofs.chunks] in HB.
+  destruct l as [|y l']; [destruct HB|]. destruct HB as [<-|HB].
+  - split; [apply firstn_le_length|]. intros x Hx. rewrite <- (firstn_skipn bs (y :: l')). apply in_or_app. left. exact Hx.
+  - destruct (IH _ _ HB) as [H1 H2]. split; [exact H1|]. intros x Hx. rewrite <- (firstn_skipn bs (y :: l')).
+    apply in_or_app. right. exact (H2 x Hx).
+Qed.
+
+Definition name_bytes_ok (n : list N) : Prop := Forall (fun b => 1 <= b < 128) n.
+
+Section CatDom.
+  Variable zc : N -> list N -> list N.
+  Variable ecn : Pipeline.name -> Pipeline.name.
+  Variables (k : N) (spl : N -> bool) (segsize : N).
+  Variable dec : nat -> nat -> decision.
+  Variable grp : nat -> nat -> N.
+  Variable sched : list registration -> list registration.
+  Variable samples : list (Pipeline.name * list (Pipeline.name * list N)).
+  Variables (lz_enc : list N -> list N -> list N) (compress_ref : list N -> list N * N) (compress_pack : list N -> list N).
+  Variable gops : list op.
+  Variable st : store.
+  Variables (coll : Pipeline.collection) (stored : list (Pipeline.seg_desc * list N)).
+  Hypothesis Hk : 1 <= k.
+  Hypothesis Hin : inputs_ok samples.
+  Hypothesis Hdec : decisions_ok k spl segsize dec (pushes_of samples).
+  Hypothesis Hsched : forall l, Permutation l (sched l).
+  Hypothesis Hcarry : ops_carry (all_emit k spl segsize dec grp 0 (pushes_of samples)) gops.
+  Hypothesis Hrun : run lz_enc compress_ref compress_pack gops = Ok st.
+  Hypothesis Hc : create ecn k spl segsize dec (store_addr k spl segsize dec grp (pushes_of samples) st) sched (pushes_of samples)
+                  = Ok (coll, stored).
+  (* input level: fewer than 2^32 samples, contigs per sample, 2 * (bases + 1) per contig; name bytes in 1..127 *)
+  Hypothesis Hns : lenN samples < 4294967296.
+  Hypothesis Hshape : Forall (fun s => name_bytes_ok (fst s) /\ lenN (snd s) < 4294967296 /\
+                        Forall (fun c => name_bytes_ok (fst c) /\ 2 * (lenN (snd c) + 1) < 4294967296) (snd s)) samples.
+  (* oracle: group ids of emitted pieces below u32::MAX; no group receives 2^31 - 1 pieces *)
+  Hypothesis Hgrp : forall x, In x (all_emit k spl segsize dec grp 0 (pushes_of samples)) -> fst x < 4294967295.
+  Hypothesis Hcount : forall g,
+    lenN (filter (fun x => fst x =? g) (all_emit k spl segsize dec grp 0 (pushes_of samples))) < 2147483647.
+  (* residual: stream sizes *)
+  Hypothesis Hsmall : Forall (Collection_proofs.batch_small zc segsize k)
+    (Collection_proofs.chunks (length (mc_cat_of coll)) (N.to_nat W_CATALOGUE_BATCH) (mc_cat_of coll)).
+
+  Let addr := store_addr k spl segsize dec grp (pushes_of samples) st.
+
+  Lemma stored_desc_in_range : forall d b, In (d, b) stored ->
+    Pipeline.d_group d < 4294967295 /\ Pipeline.d_id d < 2147483647 /\ Pipeline.d_len d < 4294967296.
+  Proof using All.
+    intros d b Hdb.
+    destruct (create_inv ecn k spl segsize dec addr sched samples Hin coll stored Hc) as (regs & _ & Ea & Est & _).
+    destruct (store_addr_consistent_proof k spl segsize dec grp _ _ _ (pushes_of samples) gops st regs Hk Hdec Hcarry Hrun Ea)
+      as [_ Haddr].
+    rewrite <- Est in Haddr. destruct (Haddr d b Hdb) as (s & Hreg & _ & _).
+    pose proof (reg_id_bound _ _ _ _ _ _ _ _ Hrun Hreg) as Hid.
+    pose proof (Permutation_length (Hcarry (Pipeline.d_group d))) as El. rewrite map_length in El.
+    split; [|split].
+    - rewrite Est in Hdb. apply in_map_iff in Hdb. destruct Hdb as (r & Er & Hr).
+      apply (all_regs_in k spl segsize dec grp addr _ _ _ Ea) in Hr. destruct Hr as (i & s' & c' & pc & Hp & ->).
+      assert (Eg : Pipeline.d_group d = grp i (p_part pc)).
+      { assert (E1 : r_desc (reg_of addr i s' c' pc) = d) by (exact (f_equal fst Er)). rewrite <- E1. unfold reg_of, addr, store_addr. reflexivity. }
+      rewrite Eg. apply (Hgrp (grp i (p_part pc), seg_of_piece s' c' pc)). apply all_emit_in. exists i, s', c', pc. auto.
+    - specialize (Hcount (Pipeline.d_group d)). unfold lenN in *. lia.
+    - rewrite (create_stored_len _ _ _ _ _ _ _ _ _ _ Hc d b Hdb). unfold wrap32. apply N.mod_lt. discriminate.
+  Qed.
+
+  Lemma vec_length : forall regs, contig_names_ok samples ->
+    all_regs k spl segsize dec addr 0 (pushes_of samples) = Ok regs ->
+    forall s c, In s samples -> In c (snd s) ->
+    (length (vec_of ecn sched regs (fst s) (fst c)) <= 2 * (length (snd c) + 1))%nat.
+  Proof using All.
+    intros regs Hnames Ea s c Hs Hcin.
+    assert (Hp : In (fst s, fst c, snd c) (pushes_of samples)).
+    { unfold pushes_of. apply in_flat_map. exists s. split; [exact Hs|]. apply in_map_iff. exists c. auto. }
+    apply In_nth_error in Hp. destruct Hp as [j Hj].
+    destruct (contig_vector ecn k spl segsize dec addr sched samples Hk Hin Hdec Hsched regs Hnames Ea j _ _ _ Hj)
+      as (rs & Ers & _ & _ & P).
+    rewrite (Permutation_length P), map_length. rewrite contig_regs_eq in Ers.
+    destruct (contig_pieces (N.to_nat k) (split_gen true (snd c) spl k) (dec j) 0 0) as [ps| |] eqn:Ep; cbn [obnd] in Ers; try discriminate.
+    apply ok_inj in Ers. subst rs. rewrite map_length. apply contig_pieces_count in Ep.
+    pose proof (split_gen_count true (snd c) spl k). lia.
+  Qed.
+
+  Theorem catalogue_in_dom_from_inputs_proof : catalogue_in_dom zc segsize k (mc_cat_of coll).
+  Proof using All.
+    destruct (create_inv ecn k spl segsize dec addr sched samples Hin coll stored Hc) as (regs & Hnames & Ea & Est & Ecoll).
+    pose proof Hshape as Hshape'. rewrite Forall_forall in Hshape'.
+    assert (Hsmp : forall smp, In smp (mc_cat_of coll) ->
+              name_bytes_ok (Collection.sname smp) /\ Collection_proofs.sample_wf smp).
+    { intros smp Hsmp. unfold mc_cat_of in Hsmp. apply in_map_iff in Hsmp. destruct Hsmp as (sd & <- & Hsd).
+      pose proof Hsd as Hsd0. rewrite Ecoll in Hsd. unfold build, shape_of in Hsd. apply in_map_iff in Hsd.
+      destruct Hsd as (sh & Esd & Hsh). apply in_map_iff in Hsh. destruct Hsh as (s & <- & Hs).
+      destruct (Hshape' s Hs) as (Hn & Hcn & Hcs). rewrite Forall_forall in Hcs. subst sd. cbn [fst snd Collection.sname].
+      split; [exact Hn|]. unfold Collection_proofs.sample_wf. cbn [scontigs]. split.
+      - unfold lenN in *. rewrite !map_length. exact Hcn.
+      - apply Forall_forall. intros ct Hct. apply in_map_iff in Hct. destruct Hct as (cd & <- & Hcd). cbn [cname csegs].
+        apply in_map_iff in Hcd. destruct Hcd as (cn & <- & Hcn'). apply in_map_iff in Hcn'. destruct Hcn' as (c & <- & Hcin).
+        cbn [fst snd]. destruct (Hcs c Hcin) as (Hcname & Hclen). split; [exact Hcname|]. split.
+        + pose proof (vec_length regs Hnames Ea s c Hs Hcin). unfold lenN in *. rewrite map_length.
+          assert (Hgen : forall a b : nat, (b <= 2 * (a + 1))%nat -> 2 * (N.of_nat a + 1) < 4294967296 -> N.of_nat b < 4294967296)
+            by (intros; lia).
+          exact (Hgen _ _ H Hclen).
+        + apply Forall_forall. intros x Hx. apply in_map_iff in Hx. destruct Hx as (d & <- & Hd). left.
+          assert (Hdin : desc_in coll d).
+          { exists (fst s, map (fun c0 => (c0, vec_of ecn sched regs (fst s) c0)) (map fst (snd s))),
+                   (fst c, vec_of ecn sched regs (fst s) (fst c)).
+            split; [exact Hsd0|]. split; [|exact Hd]. cbn [snd]. apply in_map_iff. exists (fst c). split; [reflexivity|].
+            apply in_map. exact Hcin. }
+          destruct (coll_from_stored ecn k spl segsize dec addr sched samples Hk Hin Hdec Hsched coll stored Hc d Hdin) as (b & Hdb).
+          exact (stored_desc_in_range d b Hdb). }
+    split; [|split].
+    - rewrite Ecoll. unfold mc_cat_of, build, shape_of, lenN in *. rewrite !map_length. exact Hns.
+    - apply Forall_forall. intros smp H. exact (proj1 (Hsmp smp H)).
+    - apply Forall_forall. intros B HB. destruct (chunks_sub _ _ _ _ HB) as [HlB HinB]. split; [|split].
+      + apply Forall_forall. intros smp H. exact (proj2 (Hsmp smp (HinB smp H))).
+      + unfold lenN. assert (N.to_nat W_CATALOGUE_BATCH = 50%nat) by reflexivity. lia.
+      + rewrite Forall_forall in Hsmall. exact (Hsmall B HB).
+  Qed.
+End CatDom.
+
+(* ---- the grand round trip with the catalogue domain reduced to its stream-size part *)
+Section GrandInputs.
+  Variable zc : N -> list N -> list N.
+  Variable zd : list N -> option (list N).
+  Hypothesis Hzd : forall l x, zd (zc l x) = Some x.
+  Hypothesis Hzc : forall l x, zc l x <> [].
+  Variable ecn : Pipeline.name -> Pipeline.name.
+  Variables (k mml segsize level : N).
+  Variable spl : N -> bool.
+  Variable dec : nat -> nat -> decision.
+  Variable grp : nat -> nat -> N.
+  Variable sched : list registration -> list registration.
+  Variable gops : list op.
+  Variable fti : Container.item.
+  Variable samples : list (Pipeline.name * list (Pipeline.name * list N)).
+  Hypothesis Hk : 1 <= k <= 32.
+  Hypothesis Hmml : 4 <= mml.
+  Hypothesis Hm32 : mml < two32.
+  Hypothesis Hs32 : segsize < two32.
+  Hypothesis Hssk : segsize + k <= 2147483648.
+  Hypothesis Hin : inputs_ok samples.
+  Hypothesis Hnames : contig_names_ok samples.
+  Hypothesis Hdom : inputs_in_dom mml (pushes_of samples).
+  Hypothesis Hns : lenN samples < 4294967296.
+  Hypothesis Hshape : Forall (fun s => name_bytes_ok (fst s) /\ lenN (snd s) < 4294967296 /\
+                        Forall (fun c => name_bytes_ok (fst c) /\ 2 * (lenN (snd c) + 1) < 4294967296) (snd s)) samples.
+  Hypothesis Hdec : decisions_ok k spl segsize dec (pushes_of samples).
+  Hypothesis Hlz : lz_contigs_nonempty (pushes_of samples) grp.
+  Hypothesis Hgrp : forall x, In x (all_emit k spl segsize dec grp 0 (pushes_of samples)) -> fst x < 4294967295.
+  Hypothesis Hsched : forall l, Permutation l (sched l).
+  Hypothesis Hcarry : ops_carry (all_emit k spl segsize dec grp 0 (pushes_of samples)) gops.
+  Hypothesis Hcount : forall g,
+    lenN (filter (fun x => fst x =? g) (all_emit k spl segsize dec grp 0 (pushes_of samples))) < 2147483647.
+  Hypothesis Hsmall : forall st coll stored,
+    run (mc_lz_enc mml) (mc_cref zc) (mc_cpack zc level) gops = Ok st ->
+    create ecn k spl segsize dec (mc_store_addr k spl segsize dec grp (pushes_of samples) st) sched (pushes_of samples)
+      = Ok (coll, stored) ->
+    Forall (Collection_proofs.batch_small zc segsize k)
+      (Collection_proofs.chunks (length (mc_cat_of coll)) (N.to_nat W_CATALOGUE_BATCH) (mc_cat_of coll)).
+  Hypothesis Hres : forall b,
+    model_build zc ecn k mml segsize level spl dec grp sched gops fti samples = Ok b ->
+    parts_meta_u64 (b_wops b) /\ lenN (b_file b) <= spec_max_off.
+
+  Theorem grand_roundtrip_inputs_proof : exists b,
+    model_build zc ecn k mml segsize level spl dec grp sched gops fti samples = Ok b /\
+    decode zd (b_file b) = Ok samples.
+  Proof.
+    apply (grand_roundtrip_total_proof zc zd Hzd Hzc ecn k mml segsize level spl dec grp sched gops fti samples
+             Hk Hmml Hm32 Hs32 Hssk Hin Hnames Hdom Hdec Hlz Hsched Hcarry).
+    - intro g. specialize (Hcount g). unfold two32. lia.
+    - intros st coll stored Hrun Hc.
+      exact (catalogue_in_dom_from_inputs_proof zc ecn k spl segsize dec grp sched samples _ _ _ gops st coll stored
+               (proj1 Hk) Hin Hdec Hsched Hcarry Hrun Hc Hns Hshape Hgrp Hcount (Hsmall st coll stored Hrun Hc)).
+    - exact Hres.
+  Qed.
+End GrandInputs.
